@@ -80,6 +80,11 @@ func forkAndExecInChild(r *Runner, argv0 *byte, argv, env []*byte, workdir, host
 		childExitError(pipe, LocCloseWrite, err1)
 	}
 
+	// a traced child must not outlive a tracer that dies before it was able to set PTRACE_O_EXITKILL
+	if r.Ptrace {
+		syscall.RawSyscall(syscall.SYS_PRCTL, syscall.PR_SET_PDEATHSIG, uintptr(syscall.SIGKILL), 0)
+	}
+
 	// If usernamespace is unshared, uid map and gid map is required to create folders
 	// and files
 	// We need parent to setup uid_map / gid_map for us since we do not have capabilities
